@@ -1005,8 +1005,14 @@ impl NcFont {
             let nsub = 1 + rng.below(2);
             gsub_lookups.push((5, (0..nsub).map(|_| nc_context_subst(&mut rng, &nested)).collect()));
         }
-        let (gsub_scripts, gsub_features, gsub_fv, variable) =
-            Self::nc_features(&mut rng, gsub_lookups.len(), &[*b"calt", *b"liga", *b"ccmp", *b"smcp", *b"rlig", *b"locl", *b"rvrn"]);
+        // seeds >= 24: the features whose lookups allsorts' default shaper handles specially
+        // (frac with its numr/dnom slices, afrc), sharing lookups with ordinary default features
+        let gsub_tags: &[Tag] = if seed >= 24 {
+            &[*b"ccmp", *b"calt", *b"frac", *b"frac", *b"afrc", *b"numr", *b"dnom", *b"liga", *b"clig", *b"frac"]
+        } else {
+            &[*b"calt", *b"liga", *b"ccmp", *b"smcp", *b"rlig", *b"locl", *b"rvrn"]
+        };
+        let (gsub_scripts, gsub_features, gsub_fv, variable) = Self::nc_features(&mut rng, gsub_lookups.len(), gsub_tags);
         let gsub = nc_layout_table(&gsub_scripts, &gsub_features, &gsub_lookups, &gsub_fv);
         // ---- GPOS
         let n_pos = 3 + rng.below(4);
